@@ -55,6 +55,18 @@ Theorem C15_setlat_cut_partial : forall lat, ffin lat = true -> (Rabs (fval lat)
   (- bpow radix2 (-46) <= Rabs (fval lat) - Rabs (fval (setlat_trunc lat)) <= 1 / 10 ^ 10 + bpow radix2 (-46))%R.
 Proof. exact setlat_cut_bounds. Qed.
 Print Assumptions C15_setlat_cut_partial.
+(* the same on the INPUT side of NewPoint: an accepted point stores a latitude within that band of the argument (partial) ... *)
+Theorem C15_new_point_lat_band_partial : forall lon lat alt, ffin lat = true -> (Rabs (fval lat) <= 90)%R ->
+  invalid_new_point lon lat = false ->
+  (- bpow radix2 (-46) <= Rabs (fval lat) - Rabs (fval (F64.plat (fst (new_point lon lat alt)))) <= 1 / 10 ^ 10 + bpow radix2 (-46))%R.
+Proof. exact new_point_lat_band_partial. Qed.
+Print Assumptions C15_new_point_lat_band_partial.
+(* ... and a latitude beyond the limit by more than the cut and the float dust is refused (values in between, e.g. 85.05112877985,
+   are accepted and stored as the limit: "beyond the limit" is read after the documented cut) *)
+Theorem C15_new_point_rejects_lat_beyond_limit : forall lon lat alt, ffin lat = true -> (Rabs (fval lat) <= 90)%R ->
+  (fval c_latmax + 1 / 10 ^ 10 + bpow radix2 (-46) < Rabs (fval lat))%R -> snd (new_point lon lat alt) = true.
+Proof. exact new_point_rejects_lat_beyond. Qed.
+Print Assumptions C15_new_point_rejects_lat_beyond_limit.
 (* the run-time reference of the dispatch entries decides the documented statement exactly *)
 Theorem C15_setlat_checker_sound : forall lat s, ffin lat = true -> ffin s = true ->
   exact_cut_ok lat s = true <-> (0 <= Rabs (fval lat) - Rabs (fval s) < 1 / 10 ^ 10)%R.
@@ -262,19 +274,13 @@ Theorem C15_tiles_error_flag_valid_zoom : forall l E O outV, zoom_bad outV = fal
   err_tiles l E O outV = existsb (fun t => negb (is_ok (key2z (tz t) (tv t) outV E O))) l.
 Proof. exact tiles_flag_valid_zoom. Qed.
 Print Assumptions C15_tiles_error_flag_valid_zoom.
-(* altitude keys (models of C12): zooms are not validated as such (finding class altkey_zoom_unchecked); partial: a negative
-   input zoom is always refused *)
-Theorem C15_altkey_zoom_unchecked_refuted :
-  invalid_altkey 36 3 = true /\ z2key 0 36 3 25 0 = Ok (0, 0) /\
-  invalid_altkey 3 36 = true /\ key2z 0 3 36 25 0 = Ok (0, 8589934591).
-Proof. exact altkey_zoom_unchecked_refuted. Qed.
-Print Assumptions C15_altkey_zoom_unchecked_refuted.
-Theorem C15_z2key_negative_zoom_partial : forall f z out E O, z < 0 -> z2key f z out E O = Err.
-Proof. exact z2key_negative_zoom. Qed.
-Print Assumptions C15_z2key_negative_zoom_partial.
-Theorem C15_key2z_negative_zoom_partial : forall k kz out E O, kz < 0 -> key2z k kz out E O = Err.
-Proof. exact key2z_negative_zoom. Qed.
-Print Assumptions C15_key2z_negative_zoom_partial.
+(* altitude keys (models of C12, after fix 9dab435): a source or target zoom outside 0..35 is an error, whatever the other arguments *)
+Theorem C15_z2key_rejects_bad_zoom : forall f z out E O, zoom_bad z || zoom_bad out = true -> z2key f z out E O = Err.
+Proof. exact z2key_rejects. Qed.
+Print Assumptions C15_z2key_rejects_bad_zoom.
+Theorem C15_key2z_rejects_bad_zoom : forall k kz out E O, zoom_bad kz || zoom_bad out = true -> key2z k kz out E O = Err.
+Proof. exact key2z_rejects. Qed.
+Print Assumptions C15_key2z_rejects_bad_zoom.
 (* clearance fit and corridor (models of C14): negative clearance / radius, malformed ID, nil point, zoom outside 0..35 *)
 Theorem C15_fit_rejects : forall fuel dx dy id c, invalid_fit id c = true -> fit_model (S fuel) dx dy id c = Some Err.
 Proof. exact fit_rejects. Qed.
@@ -284,9 +290,10 @@ Theorem C15_fit_accepts_zero_clearance : forall fuel dx dy i, valid i ->
   fit_model (S fuel) dx dy (print_eid i) 0%float = Some (Ok (0, 0)).
 Proof. exact fit_accepts_zero. Qed.
 Print Assumptions C15_fit_accepts_zero_clearance.
-Theorem C15_corridor_rejects : forall ord_n ord_u ord_q m_tan m_cos m_log fuel dx dy measure has_nil s e h v r skip,
+Theorem C15_corridor_rejects : forall ord_n ord_u ord_q m_tan m_cos m_log fuel dx dy (St : Type) (st0 : St)
+    (measure : St -> string -> result (bool * St)) has_nil s e h v r skip,
   invalid_corridor has_nil h v r = true ->
-  corridor ord_n ord_u ord_q (fit_of_model fuel dx dy r) measure (line_api m_tan m_cos m_log has_nil s e h v) skip = Err.
+  corridor ord_n ord_u ord_q (fit_of_model fuel dx dy r) St st0 measure (line_api m_tan m_cos m_log has_nil s e h v) skip = Err.
 Proof. exact corridor_rejects. Qed.
 Print Assumptions C15_corridor_rejects.
 (* GetVoxelIDfromSpatialID has no error result (model of C10): fewer than five fields give the empty list, and only they *)
